@@ -29,6 +29,7 @@
 #include <thread>
 #include <vector>
 #include <atomic>
+#include <fcntl.h>
 #include <poll.h>
 #include <sys/wait.h>
 #include <unistd.h>
